@@ -33,6 +33,21 @@ pub fn run(args: &[String]) {
           obs["ram"] = json!(h.get_ram_size_bytes());
           let r = std::panic::catch_unwind(|| { let _ = h.create_cart_state(); });
           obs["supported"] = json!(r.is_ok());
+          // what the loader builds from an accepted file: ROM and cartridge RAM of the sizes the tables give, and RAM that
+          // stores a byte exactly when there is some
+          if exp["ok"].as_bool().unwrap_or(false) && r.is_ok() {
+            let built = std::panic::catch_unwind(std::panic::AssertUnwindSafe(|| {
+              let mut m = crate::mem::MemoryAreas::with_rom_file(&mut file, &h);
+              let p = &mut m as *mut crate::mem::MemoryAreas;
+              crate::mem::memory_write_byte(p, 0xa000, 0x5a);
+              crate::mem::memory_write_byte(p, 0xa7ff, 0xa5);
+              (m.rom.len(), m.cart_ram.len(), crate::mem::memory_read_byte(p, 0xa000), crate::mem::memory_read_byte(p, 0xa7ff))
+            }));
+            match built {
+              Ok((rl, cl, b0, b1)) => { obs["built_rom"] = json!(rl); obs["built_ram"] = json!(cl); obs["ram_rw"] = json!([b0, b1]); },
+              Err(_) => { obs["built_rom"] = json!(-1); },
+            }
+          }
         },
       }
     }
@@ -47,6 +62,12 @@ pub fn run(args: &[String]) {
         if obs["rom"] != case["romsize"] { d.push("rom-size"); }
         if obs["ram"] != case["ramsize"] { d.push("ram-size"); }
         if obs["supported"].as_bool().unwrap() != (case["kind"] != "unsupported") { d.push("type-support"); }
+        if !obs["built_rom"].is_null() {
+          if obs["built_rom"] != case["romsize"] { d.push("built-rom-size"); }
+          if obs["built_ram"] != case["ramsize"] { d.push("built-ram-size"); }
+          let stores = obs["ram_rw"] == json!([0x5a, 0xa5]);
+          if stores != (ju(&case["ramsize"]) > 0) { d.push("ram-storage"); }
+        }
       }
     }
     n += 1;
